@@ -384,6 +384,12 @@ var variants = []variant{
 	{"claim-collides-plural", func(d *v1.CompositeResourceDefinition) { d.Spec.ClaimNames.Plural = d.Spec.Names.Plural }},
 	{"claim-collides-singular", func(d *v1.CompositeResourceDefinition) { d.Spec.ClaimNames.Singular = d.Spec.Names.Singular }},
 	{"claim-collides-listKind", func(d *v1.CompositeResourceDefinition) { d.Spec.ClaimNames.ListKind = d.Spec.Names.ListKind }},
+	{"claim-collides-singular-listKind-omitted", func(d *v1.CompositeResourceDefinition) {
+		d.Spec.ClaimNames.Singular, d.Spec.ClaimNames.ListKind = d.Spec.Names.Singular, ""
+	}},
+	{"claim-collides-listKind-singular-omitted", func(d *v1.CompositeResourceDefinition) {
+		d.Spec.ClaimNames.Singular, d.Spec.ClaimNames.ListKind = "", d.Spec.Names.ListKind
+	}},
 	{"no-claim+group'", func(d *v1.CompositeResourceDefinition) { d.Spec.ClaimNames = nil; d.Spec.Group = "other.org" }},
 	{"singular'", func(d *v1.CompositeResourceDefinition) { d.Spec.Names.Singular = "xthing2" }},
 	{"listKind'", func(d *v1.CompositeResourceDefinition) { d.Spec.Names.ListKind = "XThing2List" }},
